@@ -75,12 +75,11 @@ Definition wire_body (enc zip : bytes -> bytes) (p0 pa : packet) : bytes :=
 Definition body_off (ver : Z) (p : packet) : N :=
   if Z.eqb ver 1 then 14 else 20 + 4 * lenN (p_refers p).
 
-(* the caller's packet: only the two marshalling flag bits may have been added *)
+(* the caller's packet: only the two marshalling flag bits may differ *)
 Definition caller_fields_ok (p0 pa : packet) : bool :=
   Z.eqb (p_cmd p0) (p_cmd pa) && N.eqb (p_seq p0) (p_seq pa) && Z.eqb (p_typ p0) (p_typ pa)
   && N.eqb (p_node p0) (p_node pa) && nlist_eqb (p_refers p0) (p_refers pa)
-  && N.eqb (N.ldiff (p_flag pa) 3) (N.ldiff (p_flag p0) 3)
-  && N.eqb (N.land (p_flag p0) (p_flag pa)) (p_flag p0).
+  && N.eqb (N.ldiff (p_flag pa) 3) (N.ldiff (p_flag p0) 3).
 
 (* ---------------------------------------------------------------------------------- *)
 (* one WritePacket call *)
@@ -97,7 +96,6 @@ Definition check_write (enc zip : bytes -> bytes) (ver : Z) (thr : N) (has_c : b
            check_that (bytes_list_eqb (w_writes m) (wo_writes o)) (VMismatch 2);
            check_that (header_eqb (w_pkt m) pa) (VMismatch 3);
            check_that (N.eqb (crc32 frame) (wo_crc o)) (VMismatch 10) ] in
-  let clean := N.land (p_flag p) 3 =? 0 in
   let prop :=
     vall [ check_that (negb (wo_panic o)) (VPropFail 1);
            check_that (wo_err o || Z.eqb (wo_ret o) (Z.of_N (lenN frame))) (VPropFail 2);
@@ -105,7 +103,7 @@ Definition check_write (enc zip : bytes -> bytes) (ver : Z) (thr : N) (has_c : b
            check_that (wo_panic o || caller_fields_ok p pa) (VPropFail 4);
            check_that (wo_err o || wo_panic o ||
                        (layout_ok ver pa frame &&
-                        (negb clean || bytes_eqb (dropN (body_off ver pa) frame) (wire_body enc zip p pa))))
+                        bytes_eqb (dropN (body_off ver pa) frame) (wire_body enc zip p pa)))
                       (VPropFail 5);
            (* a frame beyond a limit must not be emitted *)
            check_that (wo_err o || ((lenN frame <=? ver_max ver)
@@ -157,15 +155,14 @@ Fixpoint check_roundtrip (ver : Z) (pos : N) (sent : list (packet * wobs)) (os :
   | (p, w) :: sent', o :: os' =>
       let pos' := pos + lenN (concat (wo_writes w)) in
       let q := ro_pkt o in
-      let clean := N.land (p_flag p) 3 =? 0 in
       let int_ok := (N.land (p_flag p) fError =? 0)
                     || match p_body p with BInt _ => true | _ => false end in
       let v :=
-        if clean && int_ok then
+        if int_ok then
           vall [ check_that (negb (ro_panic o)) (VPropFail 1);
                  check_that (Z.eqb (ro_kind o) 0
                              && Z.eqb (p_cmd q) (p_cmd p) && N.eqb (p_seq q) (p_seq p)
-                             && N.eqb (p_flag q) (p_flag p)
+                             && N.eqb (p_flag q) (N.ldiff (p_flag p) 3)   (* caller-set flag bits *)
                              && bytes_eqb (body_bytes (p_body q)) (body_bytes (p_body p))
                              && (Z.eqb ver 1 ||
                                  (Z.eqb (p_typ q) (p_typ p) && N.eqb (p_node q) (p_node p)
@@ -274,7 +271,8 @@ Definition check_limit (ver : Z) (nref bodylen : N) (thrArg : Z) (obs : list sx)
    the previous encode). *)
 
 Definition same_as_original (ver : Z) (orig q : packet) : bool :=
-  Z.eqb (p_cmd q) (p_cmd orig) && N.eqb (p_seq q) (p_seq orig) && N.eqb (p_flag q) (p_flag orig)
+  Z.eqb (p_cmd q) (p_cmd orig) && N.eqb (p_seq q) (p_seq orig)
+  && N.eqb (p_flag q) (N.ldiff (p_flag orig) 3)
   && bytes_eqb (body_bytes (p_body q)) (body_bytes (p_body orig))
   && (Z.eqb ver 1 ||
       (Z.eqb (p_typ q) (p_typ orig) && N.eqb (p_node q) (p_node orig)
